@@ -19,6 +19,7 @@ import (
 )
 
 type Exec struct {
+	staleIdents map[string]bool // identifiers a contract clause names that do not exist in the function
 	ld   *Loaded
 	cs   *ContractSet
 	sc   *Script
